@@ -7,6 +7,7 @@ import (
 
 	"gverif/core"
 	"gverif/engine/args"
+	"gverif/engine/asmx"
 	"gverif/engine/config"
 	"gverif/engine/constx"
 	"gverif/engine/decode"
@@ -103,7 +104,7 @@ var blasArgs = args.Options{RecvType: "Implementation"}
 
 func init() {
 	properties["C01"] = &property{
-		explanation: "Decides structural necessary conditions of C01 for all BLAS code paths: TWIN.generated — every generated float32/complex64 routine (and sgemm, the dot variants, the blas32/cblas64/cblas128 conversions), none of which has tests of its own at Level 2/3, is node for node the image of its tested float64/complex128 source under the generator's renaming; MODSET.blas — for all 142 routines the set of slice operands that may be written (SSA store/copy/call summaries with a level-sensitive points-to abstraction, bottom-up over the VTA call graph, analysed under the noasm tag so that every kernel has a Go body) equals the output operands of the BLAS standard for the routine's stem ('every read-only operand is unchanged', up to caller-supplied aliasing); STRIDE — no operand of blas/gonum, the blas64/blas32/cblas* wrappers or the internal/asm Go kernels is indexed, sliced or forwarded with another operand's ld/inc/Stride (units inferred by flow-insensitive fixpoint over integer locals). Does not decide arithmetic correctness of the loop nests, rounding, or assembly semantics.",
+		explanation: "Decides structural necessary conditions of C01 for all BLAS code paths: TWIN.generated — every generated float32/complex64 routine (and sgemm, the dot variants, the blas32/cblas64/cblas128 conversions), none of which has tests of its own at Level 2/3, is node for node the image of its tested float64/complex128 source under the generator's renaming; MODSET.blas — for all 142 routines the set of slice operands that may be written (SSA store/copy/call summaries with a level-sensitive points-to abstraction, bottom-up over the VTA call graph, analysed under the noasm tag so that every kernel has a Go body) equals the output operands of the BLAS standard for the routine's stem ('every read-only operand is unchanged', up to caller-supplied aliasing); STRIDE — no operand of blas/gonum, the blas64/blas32/cblas* wrappers or the internal/asm Go kernels is indexed, sliced or forwarded with another operand's ld/inc/Stride (units inferred by flow-insensitive fixpoint over integer locals). ASM.window/.units on the 56 assembly kernels. Does not decide arithmetic correctness of the loop nests, rounding, or the arithmetic of the assembly.",
 		assumptions: commonAssumptions,
 		run: func(tier string, res *core.Result) {
 			r := stride.Run(def, core.Pkgs(blasPkgs...))
@@ -125,6 +126,12 @@ func init() {
 				pu.Floor("parameters", 1500)
 				res.Merge(pu)
 			}
+			am := asmx.Run()
+			am.Floor("assembly_files", 50)
+			am.Floor("loops", 120)
+			am.Floor("loop_memory_accesses", 450)
+			am.Floor("byte_scalings", 40)
+			res.Merge(am)
 			ms := modset.Run(core.Config{Tags: "noasm"})
 			ms.Floor("blas_routines", 140)
 			ms.Floor("blas_slice_operands", 300)
@@ -196,6 +203,13 @@ func init() {
 			t := twin.Run(twin.Which{Generated: true, Prefixes: []string{"blas/"}, Bounds: true, BoundsFamilies: []string{"mat-index"}})
 			t.Floor("generated_file_pairs", 17)
 			res.Merge(t)
+			am := asmx.Run()
+			am.Floor("assembly_files", 50)
+			am.Floor("loops", 120)
+			am.Floor("loop_memory_accesses", 450)
+			am.Floor("byte_scalings", 40)
+			res.Merge(am)
+
 		},
 	}
 	properties["C04"] = &property{
@@ -226,7 +240,7 @@ func init() {
 
 func init() {
 	properties["C08"] = &property{
-		explanation: "Decides the build-configuration clauses of C08 statically: CONFIG.build/.api — every package with tag- or arch-selected files (discovered by scanning //go:build lines; thorough: every package) loads and type-checks under {default, noasm, safe, bounds, tomita, debug} x {amd64, arm64, 386} and exports the same API in each, so the assembly, pure-Go and safe builds are interchangeable at the type level (the test suite compiles one configuration); TWIN.r3 — the safe and unsafe 3x3 builders of spatial/r3 (Eye, Skew, Mul, Rotation.Mat) store the identical expression to every element; STRIDE on the pure-Go kernels of internal/asm under default and noasm; PARAMUSE — every parameter of the kernels and of floats/cmplxs is read (a length or increment that is accepted but never consulted is the footprint of a loop bounded by len(x) instead of n). Does NOT decide that assembly or a noasm loop equals the scalar definition, nor search/ordering helpers, norms or NaN handling (value-level).",
+		explanation: "Decides the build-configuration clauses of C08 statically: CONFIG.build/.api — every package with tag- or arch-selected files (discovered by scanning //go:build lines; thorough: every package) loads and type-checks under {default, noasm, safe, bounds, tomita, debug} x {amd64, arm64, 386} and exports the same API in each, so the assembly, pure-Go and safe builds are interchangeable at the type level (the test suite compiles one configuration); TWIN.r3 — the safe and unsafe 3x3 builders of spatial/r3 (Eye, Skew, Mul, Rotation.Mat) store the identical expression to every element; STRIDE on the pure-Go kernels of internal/asm under default and noasm; PARAMUSE — every parameter of the kernels and of floats/cmplxs is read (a length or increment that is accepted but never consulted is the footprint of a loop bounded by len(x) instead of n). ASM.window/.units on the assembly text (per-iteration access windows; byte/element units of start offsets — found and repaired the amd64 Ger kernels' negative-increment handling, which made the default build disagree with noasm). Does NOT decide that assembly or a noasm loop equals the scalar definition, nor search/ordering helpers, norms or NaN handling (value-level).",
 		assumptions: commonAssumptions,
 		run: func(tier string, res *core.Result) {
 			pk, counts, err := config.TaggedPackages()
@@ -246,6 +260,13 @@ func init() {
 			t := twin.Run(twin.Which{R3: true})
 			t.Floor("r3_elements_compared", 36)
 			res.Merge(t)
+			am := asmx.Run()
+			am.Floor("assembly_files", 50)
+			am.Floor("loops", 120)
+			am.Floor("loop_memory_accesses", 450)
+			am.Floor("byte_scalings", 40)
+			res.Merge(am)
+
 			asm := []string{"./internal/asm/f64", "./internal/asm/f32", "./internal/asm/c128", "./internal/asm/c64"}
 			for _, cfg := range []core.Config{{}, {Tags: "noasm"}} {
 				r := stride.Run(cfg, core.Pkgs(asm...))
@@ -507,6 +528,8 @@ func dump(argv []string) {
 		res = decode.RunClone(def, argv[1:]...)
 	case "modset":
 		res = modset.Run(core.Config{Tags: "noasm"})
+	case "asm":
+		res = asmx.Run()
 	case "twin":
 		res = twin.Run(twin.Which{Generated: true, Bounds: true, ReuseAs: true, R3: true, Siblings: []string{"graph/iterator"}})
 	case "args":
